@@ -57,6 +57,16 @@ def jobs(tier):
                 if uf:
                     opts["users_first"] = True
                 out.append({"prop": PROP, "cfg": cfg, "order": "asc", "base": "B1", "scripts": A.stamp(sc), "opts": opts})
+    # first-ever start: the tree exists on one side before the engine has run (initial walk, first cursor, first rows);
+    # every storage write / provider write of that first synchronisation is a crash instant
+    for cfg in cfgs:
+        for base_side in (0, 1):
+            for sc in ([[], []], [[["create", "c"]], []], [[], [["create", "c"]]], [[["write", "a"]], []], [[], [["delete", "d/b"]]]):
+                if sc[1 - base_side] and sc[1 - base_side][0][0] != "create":
+                    continue        # the other side has no tree yet: only creations make sense there
+                out.append({"prop": PROP, "cfg": cfg, "order": "asc", "base": "B1", "scripts": A.stamp(sc),
+                            "opts": {"storage": True, "raw_do": True, "unsynced_base": True, "base_side": base_side,
+                                     "check_base": False}})
     return out
 
 
